@@ -14,7 +14,7 @@ PROFILE = {
     'p_stay': 0.6,
     'faults': {'F1': 0.12, 'F2': 0.08, 'F3': 0.08, 'F4': 0.2, 'F5': 0.06, 'F6': 0.15, 'F9': 0.05,
                'reg': 0.07, 'eval': 0.05, 'cmp': 0.05},
-    'r3': 0.04,
+    'r3': 0.08,
     'judges': ['R1', 'I-author', 'I-others', 'R2'],
 }
 
